@@ -23,7 +23,7 @@ CONSTANTS
  DevNoLaggerDrop = FALSE
  DevNoExpire = FALSE
 INIT Init
-NEXT Next
+NEXT NextCore
 PROPERTIES AllC
 INVARIANTS StoreInSync LeaderIsMember AsgOnlyStable HbIsAlive
 CONSTRAINT GenBound
